@@ -18,7 +18,7 @@ RULE = ('(a) every element class created with xsd_check=False: seeded child sequ
         'unchecked parent must still refuse a foreign child and refuse its own to_string while incomplete; a checked, '
         'complete parent with an unchecked child holding arbitrary grandchildren must serialise (the unchecked node is '
         'exempt), and a checked, incomplete node BELOW an unchecked node below a checked root makes the root refuse until it is '
-        'completed. (e) an unchecked score-partwise holding a checked, possibly incomplete element of the class is written by write() (both flags) exactly as to_string() returns it. Replaced and removed children of unchecked elements must report no parent. (a) includes one run of 300 children per class with replacement and removal at positions >= 257. non-trivial = a sequence with at least one child; distinct by (class, sequence)')
+        'completed. (f) possible_children_names, reading an unset xml_ child and setting a child through the xml_ shortcut behave on an unchecked element as on a checked one. (e) an unchecked score-partwise holding a checked, possibly incomplete element of the class is written by write() (both flags) exactly as to_string() returns it. Replaced and removed children of unchecked elements must report no parent. (a) includes one run of 300 children per class with replacement and removal at positions >= 257. non-trivial = a sequence with at least one child; distinct by (class, sequence)')
 ASSUMPTIONS = ['structural reasons = any exception from add_child / remove / replace_child / to_string on an unchecked element',
                'children are minimal unchecked instances unless stated']
 TIMEOUT = {'quick': 600, 'thorough': 2400}
@@ -157,7 +157,34 @@ def run_shard(shard, tier, seed):
                         if k not in P.get_children(True):
                             v('removal-from-unchecked-parent-changes-another-element', t, case)
                 c['children_with_history'] += 1
-        # ---------------- (e) an unchecked score-partwise holding this element (checked, possibly incomplete) is written by
+        # ---------------- (f) everything that is not structural checking works on an unchecked element as on a checked one:
+        # possible_children_names, reading an unset xml_ child (None), setting a child through the xml_ shortcut
+        if alpha and t not in ('link', 'opus', 'part-link'):     # (any attribute-style access on these raises: listed under C19)
+            evals += 1
+            nontriv += 1
+            U = lib.call(lambda: lib.make(cls, check=False))
+            K = lib.call(lambda: lib.make(cls, check=True, with_required=True))
+            if U[0] == 'ok' and K[0] == 'ok':
+                U, K = U[1], K[1]
+                case = {'cls': cn, 'part': 'f'}
+                pu, pk = lib.call(lambda: set(U.possible_children_names)), lib.call(lambda: set(K.possible_children_names))
+                if pu != pk:
+                    v('unchecked-accessor-differs-from-checked', t, case, {'accessor': 'possible_children_names'},
+                      {'accessor': 'possible_children_names'})
+                s0 = alpha[0]
+                attr = 'xml_' + s0.replace('-', '_')
+                ru, rk = lib.call(getattr, U, attr), lib.call(getattr, K, attr)
+                if (ru[0], ru[1] if ru[0] == 'ok' else type(ru[1]).__name__) != (rk[0], rk[1] if rk[0] == 'ok' else type(rk[1]).__name__):
+                    v('unchecked-accessor-differs-from-checked', t, case, {'accessor': 'read ' + attr, 'unchecked': str(ru[1])[:80]},
+                      {'accessor': 'xml-read'})
+                ch = lib.make(lib.child_cls(s0))
+                ru = lib.call(setattr, U, attr, ch)
+                if ru[0] == 'exc':
+                    v('unchecked-shortcut-raises', t, case, {'msg': str(ru[1])[:100]}, {'exc': type(ru[1]).__name__})
+                elif [id(x) for x in U.get_children()] != [id(ch)] or lib.call(getattr, U, attr)[1] is not ch:
+                    v('unchecked-children-view-differs', t, case, {'after': 'xml_ shortcut'})
+                c['unchecked_accessor_probes'] += 1
+        # ---------------- (f) possible_children_names, reading an unset xml_ child and setting a child through the xml_ shortcut behave on an unchecked element as on a checked one. (e) an unchecked score-partwise holding this element (checked, possibly incomplete) is written by
         # write() exactly as to_string() returns it: the other public way out must not bring the checks back
         if shard['slice'] == sorted(lib.CLASSES).index(cn) % NSHARDS and rnd.random() < (0.25 if tier == 'quick' else 1.0):
             import os
